@@ -357,6 +357,31 @@ func (s *System) findMailbox(ref *Ref) vivid.Mailbox {
 			return v
 		}
 	}
-	// 若上述皆未命中，返回系统根 Actor 的 Mailbox 作为默认兜底方案，保证 Mailbox 一定可用。
-	return s.Mailbox()
+	// 根 Actor 不在 actorContexts 中登记，发往根路径的消息（子 Actor 的终止通知、监督上下文、系统停止时的毒杀消息等）
+	// 仍然投递给根 Actor 的邮箱
+	if ref.GetPath() == s.Ref().GetPath() {
+		return s.Mailbox()
+	}
+	// 本地地址下不存在该路径（目标已终止或从未存在）：消息应当成为死信。
+	// 若像此前那样投递给根 Actor，守护 Actor 会静默忽略它（既不处理也不发布死信），
+	// 而以这种方式到达的 OnKill 甚至会终止根 Actor 自身
+	return &deadLetterMailbox{system: s}
 }
+
+// deadLetterMailbox 是找不到本地目标时使用的邮箱：入列的消息直接作为死信事件交给根 Actor 发布。
+type deadLetterMailbox struct {
+	system *System
+}
+
+func (m *deadLetterMailbox) Enqueue(envelop vivid.Envelop) {
+	m.system.TellSelf(ves.DeathLetterEvent{
+		Envelope: envelop,
+		Time:     time.Now(),
+	})
+}
+
+func (m *deadLetterMailbox) Pause() {}
+
+func (m *deadLetterMailbox) Resume() {}
+
+func (m *deadLetterMailbox) IsPaused() bool { return false }
